@@ -286,11 +286,14 @@ func (run *e2eRun) judgeAddr(p *sessionPlan, snap map[string]interface{}) {
 			}
 			res.Violate(sig, fmt.Sprintf("session %x: RemoteAddr() = %q (%s); its carriers presented %v", p.Tag, a, whose, p.IPs), snap)
 		}
-		if len(p.Carriers) > 0 && p.Carriers[0].Kind == "handoff" && len(p.IPs) >= 2 {
+		if len(p.Carriers) > 0 && (p.Carriers[0].Kind == "handoff" || p.Carriers[0].Kind == "handoff-overlap") && len(p.IPs) >= 2 {
+			if p.Carriers[0].Kind == "handoff-overlap" {
+				res.Obs("handoff_overlap_sessions_checked", 1)
+			}
 			res.Obs("handoff_sessions_checked", 1)
 			want := refSanitize(p.IPs[1])
 			if a != want {
-				res.Violate("c18:remote-addr-not-most-recent-carrier", fmt.Sprintf("session %x: first carrier presented %q and left, second presented %q and established the session; RemoteAddr() = %q, expected %q", p.Tag, p.IPs[0], p.IPs[1], a, want), snap)
+				res.Violate("c18:remote-addr-not-most-recent-carrier", fmt.Sprintf("session %x: first carrier presented %q and left before any packet, second presented %q and established the session; RemoteAddr() = %q, expected %q", p.Tag, p.IPs[0], p.IPs[1], a, want), snap)
 			}
 		}
 	}
@@ -518,6 +521,11 @@ func TestVerifC18b(t *testing.T) {
 				p.IPs[1] = r.PickString([]string{"0.0.0.0", "garbage", "\x00absent", "::"})
 			}
 			p.Carriers = []carrierPlan{{Kind: "handoff", CutUp: -1, CutDown: -1}}
+			if i%2 == 0 {
+				// the earlier carrier is still attached when the later one presents
+				// the ClientID and leaves before the session is established
+				p.Carriers[0].Kind = "handoff-overlap"
+			}
 		default:
 			p.Carriers = nil
 		}
@@ -536,6 +544,7 @@ func TestVerifC18b(t *testing.T) {
 	}
 	res.RequireObs("remote_addrs_checked", int64(len(plans)*9/10))
 	res.RequireObs("handoff_sessions_checked", int64(len(plans)/4))
+	res.RequireObs("handoff_overlap_sessions_checked", int64(len(plans)/10))
 	res.RequireObs("remote_addrs_empty", 1)
 }
 
